@@ -322,23 +322,24 @@ CLAIMED['C10'] = {
     'technique': 'Coq proof (heap reasoning: allocation only appends, reachability through children; C17 segment laws reused) + extracted-model correspondence + law oracle',
 }
 CLAIMED['C02'] = {
-    'text': 'PARTIAL (two levels proved, composition not). (i) C02_conformant_segment_accepted: for every map satisfying the computable '
-            'predicates valid_wf / fmt_wf and every data segment that conforms to its node (no surplus elements; every value draws no '
-            'code from its definition in the clause-by-clause sense of C15; every syntax note holds in the sense of C14) validation '
-            'returns true with no error event. (ii) C02_conformant_instance_located / C02_run_reports_nothing: an independent '
-            'generator-style spec of "conformant instance of a loop" (children in position order, required ones present, repeats '
-            'within limits, loop instances beginning with their first segment, wrapper loops, no rival candidate) and, for every map '
-            'with walker_wf and keys_ok, EVERY such instance: the walker locates each item at exactly its node with an EMPTY event '
-            'list and ends with the predicted usage counts (mutual induction over the instance with a counter invariant); applies to '
-            '997 and 835 sets on the shipped maps (C02_document_level_applies); keys_ok fails exactly on the two 999 maps, where the '
-            'statement is false of the code (C02_999_conformant_rejected, recorded finding). Not proved: root level / driver '
-            'forcing, wrappers entered through a later loop, composition with C04_consistent_silent and the C05 acknowledgement '
-            'theorems into "x12n_document returns True". The check generates conformant documents for every map the index selects '
+    'text': 'Theorems at three levels (Props/C02.v). (i) C02_conformant_segment_accepted: a data segment that conforms to its node (no '
+            'surplus elements; every value draws no code from its definition, clause by clause as in C15; every syntax note holds as in '
+            'C14) validates true with no error event. (ii) C02_conformant_instance_located / C02_run_reports_nothing: an independent '
+            'generator-style spec of "conformant instance of a loop" and, for every map with walker_wf and keys_ok, every such '
+            'instance is located item by item at exactly its node with an EMPTY event list and the predicted usage counts. (iii) '
+            'C02_whole_document_accepted / C02_whole_document_acknowledged: for a conformant DOCUMENT (one interchange; every group a '
+            'conformant instance of GS_LOOP of the map the index selects, segments conforming to their nodes, envelope read silently) '
+            'in any admissible delimiters and line layout, the model of x12n_document returns True, calls no error method of the '
+            'handler, and the final error tree counts no error with every group acknowledged A; groups of one interchange may use '
+            'different maps. keys_ok fails exactly on the two 999 maps, where the statement is false of the code '
+            '(C02_999_conformant_rejected, recorded finding). Excluded: several interchanges per text, the 278 BHT map switch, '
+            'wrappers entered through a later loop; HL / 837 LX numbering is a hypothesis on the reader model. The check generates '
+            'conformant documents for every map the index selects (every legal date / time shape, repeats, several sets and groups) '
             'and requires verdict True, no error call, AK5/AK9 = A; five recorded findings.',
     'design_ref': 'DESIGN.md §6 C02, §11',
-    'note': 'Trusted: Coq kernel; hand transcriptions Element/Syntax/Validation/MapLoad/Walker/Counter; Spec/C02_doc_spec.v and '
-            'harness/confgen.py are my reading of "conformant"; extraction.',
-    'technique': 'Coq proof (per-position decomposition of segment validation; mutual induction over conformant instances with a usage-counter invariant for the walker) + conformant-document generation on the implementation + extracted-model correspondence',
+    'note': 'Trusted: Coq kernel; hand transcriptions Element/Syntax/Validation/MapLoad/Walker/Counter/Reader/Driver/Errh; '
+            'Spec/C02_doc_spec.v, C02_whole_spec.v and harness/confgen.py are my reading of "conformant"; extraction.',
+    'technique': 'Coq proof (per-position decomposition of segment validation; mutual induction over conformant instances with a usage-counter invariant; driver invariant linking reader loops, walker state and handler cursors) + conformant-document generation on the implementation + extracted-model correspondence',
 }
 CLAIMED['C03'] = {
     'text': 'PARTIAL (two levels proved; error-tree attachment and set isolation by the check). (i) C03_single_element_fault_localised / '
